@@ -24,9 +24,13 @@ implementation's observation): the text applied to Left by the independent appli
 `Spec.DiffApply` gives Right; the parsed chunks describe the same changes at the same line ranges
 (`ChunkOK` for every parsed chunk, ascending, `patch Left parsed = Right`); re-formatting is
 byte-identical; names and times of the header come back; every git-wrapped copy parses to the
-same chunks.  All failing checks are listed.  A failure that neither recorded finding can
-explain (F5: needs a range written without count; F6: needs a range written with count 0) marks
-the model observation `UNEXPLAINED-PROPERTY-FAILURE`, which makes the line a new violation.
+same chunks.  All failing checks are listed.  A failing check is explained by a recorded finding
+only if the implementation's observation is exactly what the finding predicts (F5: the parsed
+chunks with the one-line ranges of the hunks that omit a count restored pass, and the re-formatted
+text is the text with those counts spelled `,0`; F6: the text applies when an empty left range
+`start,0` is read as written) — see "the observation the two recorded findings predict" below.
+Any other failure marks the model observation `UNEXPLAINED-PROPERTY-FAILURE`, which makes the line
+a new violation.
 The round-trip clause is read as being about texts with at least one hunk (see `specUnified`).
 -/
 namespace MdsVerif.Drv.C14
@@ -154,24 +158,60 @@ def sameChanges (cs : List (Chunk Line)) (L R : List Line) : Bool :=
 
 def oneEditEach (cs : List (Chunk Line)) : Bool := cs.all fun c => c.edits.length == 1
 
-/-- the two ranges of every `@@ -a[,b] +c[,d] @@` line of a text, as written -/
-def hunkRanges (text : List Line) : List (List Char × List Char) :=
-  text.filterMap fun l =>
-    if (['@', '@', ' ', '-'] : Line).isPrefixOf l then
-      let t := l.drop 4
-      let a := t.takeWhile (· ≠ ' ')
-      let u := (t.drop (a.length + 2))
-      some (a, u.takeWhile (· ≠ ' '))
-    else none
+/-! ### the observation the two recorded findings predict
 
-/-- F5 can explain a parse-back failure only if some range is written without a count -/
-def hasOmittedCount (text : List Line) : Bool :=
-  (hunkRanges text).any fun p => !p.1.contains ',' || !p.2.contains ','
+A failing check counts as explained only if the implementation's observation is EXACTLY what the
+recorded defect makes of a correct result, hunk for hunk:
 
-/-- F6 can explain an application failure only if some range is written with the count 0 -/
-def hasZeroCount (text : List Line) : Bool :=
-  (hunkRanges text).any fun p =>
-    (['0', ','] : List Char).isPrefixOf p.1.reverse || (['0', ','] : List Char).isPrefixOf p.2.reverse
+* **F5** (the reader takes an omitted hunk count as 0): a range whose count is omitted in the header
+  (one line, by the published rules) comes back with `end = start`.  `unF5 hdrs cs` undoes exactly
+  that on the parsed chunks — chunk `i` against header `i` of the text, only where the count is
+  omitted and the range came back empty — and the repaired list must be "the same changes at the
+  same line ranges"; the re-formatted text must be the text in which exactly the omitted counts are
+  spelled `,0` (`f5Text`).  A hunk written with both counts is judged as it stands.
+* **F6** (the writer spells an empty left range `start,0`): the text must apply when `start,0` is
+  read the way it is written (`DiffApply.applyUnifiedWith true`, every other rule unchanged).
+
+Anything else — a wrong line, a wrong range in a hunk the findings do not touch — stays unexplained. -/
+
+/-- the hunk headers of a text, read by the reference parser of `Spec.DiffApply` -/
+def hunkHeaders (text : List Line) : List ((Nat × Option Nat) × (Nat × Option Nat)) :=
+  text.filterMap DiffApply.parseUnifiedHeader
+
+/-- undo F5 on the parsed chunks, hunk for hunk: a range whose count the header omits and that was
+read back empty is the one-line range at its start -/
+def unF5 (hdrs : List ((Nat × Option Nat) × (Nat × Option Nat))) (cs : List (Chunk Line)) :
+    List (Chunk Line) :=
+  List.zipWith (fun h c =>
+    { c with
+      lend := if h.1.2.isNone && c.lend == c.lstart then c.lend + 1 else c.lend
+      rend := if h.2.2.isNone && c.rend == c.rstart then c.rend + 1 else c.rend }) hdrs cs
+
+/-- the same without the text (second file of the git patch, whose text is not observed): a range
+read back empty whose edits hold exactly one line of that side is a one-line range -/
+def unF5byEdits (cs : List (Chunk Line)) : List (Chunk Line) :=
+  cs.map fun c =>
+    { c with
+      lend := if c.lend == c.lstart && (Mdiff.consumed c.edits).length == 1 then c.lend + 1 else c.lend
+      rend := if c.rend == c.rstart && (Mdiff.produced c.edits).length == 1 then c.rend + 1 else c.rend }
+
+/-- a hunk header with every omitted count spelled `,0` (what re-formatting an F5-misread hunk gives) -/
+def f5Header (l : Line) : Line :=
+  if (['@', '@', ' ', '-'] : Line).isPrefixOf l then
+    let t := l.drop 4
+    let a := t.takeWhile (· ≠ ' ')
+    let u := t.drop (a.length + 2)
+    let b := u.takeWhile (· ≠ ' ')
+    if (t.drop a.length).take 2 = [' ', '+'] then
+      let z (x : Line) : Line := if x.contains ',' then x else x ++ [',', '0']
+      ['@', '@', ' ', '-'] ++ z a ++ [' ', '+'] ++ z b ++ u.drop b.length
+    else l
+  else l
+
+def f5Text (text : List Line) : List Line := text.map f5Header
+
+/-- the bytes of a text given by its lines -/
+def joinLines (text : List Line) : List Char := text.flatMap fun l => l ++ ['\n']
 
 def specNormal (s : S14) (impl : String) : String × Bool :=
   if impl.startsWith "panic" || impl == "hang" then ("bad must return: " ++ impl, true) else
@@ -205,36 +245,54 @@ def specUnified (s : S14) (impl : String) : String × Bool :=
     let wantFi : Option FileInfo :=
       s.fi.map fun f => ⟨orDefault f.left ['a'], orDefault f.right ['b'], f.leftTime, f.rightTime⟩
     let gitWant := (wantFi.getD ⟨['a'], ['b'], none, none⟩)
-    let f5 := hasOmittedCount text
-    let f6 := hasZeroCount text
+    let hdrs := hunkHeaders text
+    let rdCs := parseChunks rd
+    let rdOk (cs : List (Chunk Line)) : Bool := sameChanges cs s.left s.right && cs.length == hunks
+    -- what F5 predicts for the re-formatted text
+    let reF5 := f5Text text
+    let reWant := if reF5 == text then "same" else "diff:" ++ hexText (joinLines reF5)
+    -- the two files of the git patch
+    let git := (obsField impl "git").splitOn ";"
+    let gitOk (repair : List (Chunk Line) → List (Chunk Line)) : Bool :=
+      obsField impl "git" != "err" &&
+      (match git with
+       | [p1, p2] =>
+         (match p1.splitOn ":[" with
+          | [f, c] => parseFi f == some (some gitWant) && ("[" ++ c) == rd
+          | _ => false) &&
+         (match p2.splitOn ":[" with
+          | [f, c] => parseFi f == some (some gitWant) &&
+              (match parseChunks ("[" ++ c) with
+               | some cs2 => sameChanges (repair cs2) s.right s.left
+               | none => false)
+          | _ => false)
+       | _ => false)
     if text.isEmpty then
       allBad [(s.left == s.right, false, "Unified writes nothing although Left differs from Right")]
     else
     allBad [
       (s.left != s.right, false, "Unified writes a diff although Left = Right"),
-      (DiffApply.applyUnified text s.left == some s.right, f6, "unified text applied to Left by the GNU rules does not give Right"),
+      (DiffApply.applyUnified text s.left == some s.right,
+        -- F6: exactly the reading of `start,0` stands between the text and Right
+        DiffApply.applyUnifiedWith true text s.left == some s.right,
+        "unified text applied to Left by the GNU rules does not give Right"),
       (rd != "err", false, "ReadUnified rejects Unified's output"),
-      (rd == "err" || (match parseChunks rd with
-          | some cs => sameChanges cs s.left s.right && cs.length == hunks
-          | none => false), f5,
+      (rd == "err" || (match rdCs with
+          | some cs => rdOk cs
+          | none => false),
+        -- F5: with the misread one-line ranges of exactly the hunks that omit a count restored, the check holds
+        (match rdCs with
+          | some cs => cs.length == hdrs.length && rdOk (unF5 hdrs cs)
+          | none => false),
         "ReadUnified(Unified) does not return, chunk for chunk, the same changes at the same line ranges"),
-      (rd == "err" || obsField impl "re" == "same", f5, "re-formatting the parsed unified patch differs from the text"),
+      (rd == "err" || obsField impl "re" == "same",
+        -- F5: the re-formatted text is the text with exactly the omitted counts spelled `,0`
+        obsField impl "re" == reWant,
+        "re-formatting the parsed unified patch differs from the text"),
       (rd == "err" || parseFi (obsField impl "fi") == some wantFi, false, "file names / timestamps of the header do not come back"),
-      (obsField impl "git" != "err" &&
-          (match (obsField impl "git").splitOn ";" with
-           | [p1, p2] =>
-             (match p1.splitOn ":[" with
-              | [f, c] => parseFi f == some (some gitWant) && ("[" ++ c) == rd
-              | _ => false) &&
-             (match p2.splitOn ":[" with
-              | [f, c] => parseFi f == some (some gitWant) &&
-                  (match parseChunks ("[" ++ c) with
-                   -- (a zero-length range read back may be a one-line range misread, finding F5: not judged)
-                   | some cs2 => cs2.any (fun c => c.lstart == c.lend || c.rstart == c.rend) ||
-                       sameChanges cs2 s.right s.left
-                   | none => false)
-              | _ => false)
-           | _ => false), false,
+      (gitOk id,
+        -- F5 on the second file (the reverse diff), whose text is not part of the observation
+        gitOk unF5byEdits,
         "ReadGitPatch of a two-file git patch (this diff, then the reverse diff) does not return each file's own chunks and names"),
       (obsField impl "patch" == "", false, "GNU patch disagrees: " ++ obsField impl "patch")]
 
